@@ -83,7 +83,7 @@ InitHist ==
    leadAge |-> [i \in Node |-> 0], heard |-> [i \in Node |-> [j \in Node |-> 0]],
    maxLeaderCommit |-> 0, hsExpPrev |-> [i \in Node |-> NoHS], dlPrev |-> [i \in Node |-> [next |-> 1, inc |-> 0]],
    cfgIdx |-> [i \in Node |-> 0], cfold |-> [upto |-> 0, st |-> EmptyCfg, points |-> <<>>, init |-> FALSE, twoVoterShrink |-> FALSE],
-   outst |-> <<>>, uncAcc |-> [i \in Node |-> [bytes |-> 0, lastAcc |-> 0, applied |-> 0, valid |-> FALSE, prevBytes |-> 0, prevValid |-> FALSE]],
+   outst |-> <<>>, uncAcc |-> [i \in Node |-> [valid |-> FALSE]],
    cnt |-> <<>>]
 
 MapGet(f, k, dflt) == IF k \in DOMAIN f THEN f[k] ELSE dflt
@@ -105,6 +105,14 @@ RECURSIVE CountProp(_, _, _)
 CountProp(pd, ents, k) ==
   IF k > Len(ents) THEN pd
   ELSE CountProp(IF ents[k].pid > 0 THEN MapPut(pd, ents[k].pid, MapGet(pd, ents[k].pid, 0) + 1) ELSE pd, ents, k + 1)
+
+\* one record per proposed entry (a proposal call may carry several entries)
+RECURSIVE PropsAdd(_, _, _, _, _, _)
+PropsAdd(pr, ents, k, i, ret, atLeader) ==
+  IF k > Len(ents) THEN pr
+  ELSE PropsAdd(IF ents[k].pid > 0
+                THEN MapPut(pr, ents[k].pid, [node |-> i, ret |-> ret, atLeader |-> atLeader, cc |-> ents[k].type # "N", psz |-> ents[k].psz])
+                ELSE pr, ents, k + 1, i, ret, atLeader)
 
 \* all grant messages made visible by this event: handed to the network, or
 \* (self-votes) stepped back into the node after the vote was persisted
@@ -181,8 +189,8 @@ HistNext(h, a, i, pre, post, preD, postD) ==
                   [] a.name = "Ready" /\ a.rd.hs.has -> [h.hsExp EXCEPT ![i] = a.rd.hs]
                   [] OTHER -> h.hsExp
       hsStart1 == IF a.name \in {"Restart", "Boot"} THEN [h.hsStart EXCEPT ![i] = postD.hs] ELSE h.hsStart
-      props1 == IF a.name \in {"Propose", "ProposeConfChange"}
-                THEN MapPut(h.props, a.pid, [node |-> i, ret |-> a.ret, atLeader |-> pre.role = "L", cc |-> a.name = "ProposeConfChange"])
+      props1 == IF a.name \in {"Propose", "ProposeConfChange", "ProposeBatch"}
+                THEN PropsAdd(h.props, a.ents, 1, i, a.ret, pre.role = "L")
                 ELSE h.props
       propDeliv1 == IF a.name = "Deliver" /\ a.msg.type = "Prop" /\ pre.up /\ pre.role = "L"
                     THEN CountProp(h.propDeliv, a.msg.entries, 1) ELSE h.propDeliv
@@ -201,24 +209,19 @@ HistNext(h, a, i, pre, post, preD, postD) ==
                      THEN [h.heard EXCEPT ![i] = [j \in Node |-> IF HasPr(post, j) /\ ~HasPr(pre, j) THEN 0 ELSE h.heard[i][j]]]
                 ELSE h.heard
       outst1 == OutstNext(h.outst, a, i, pre, post)
-      \* uncommitted-size accounting window (C16): valid from the start of a leadership
-      \* for as long as the leader's applied index stands still (the hypothesis of the
-      \* property: "a leader whose log cannot advance")
+      \* uncommitted-size accounting (C16).  The library's estimate is exact for the payload bytes of
+      \* the leader's own-term entries that are not yet applied, as long as everything applied since
+      \* the leadership began was itself appended in this leadership (or empty): entries of earlier
+      \* leaderships are not counted when appended but are subtracted when applied (documented
+      \* under-estimate).  `valid` tracks that hypothesis.
       ua == h.uncAcc[i]
-      \* payload bytes of the entries the leader appended to its own log in this step
-      grew == pre.up /\ up /\ pre.role = "L" /\ post.role = "L" /\ pre.term = post.term
-              /\ LastIndex(post, postD) > LastIndex(pre, preD)
-      accepted == IF grew /\ (a.name \in {"Propose", "ProposeConfChange"} \/ (a.name = "Deliver" /\ a.msg.type = "Prop"))
-                  THEN LET lo == LastIndex(pre, preD) + 1 hi == LastIndex(post, postD)
-                       IN  PayloadBytes([k \in 1..(hi - lo + 1) |-> EntryAt(post, postD, lo + k - 1)])
-                  ELSE 0
-      ua0 == [ua EXCEPT !.prevBytes = ua.bytes, !.prevValid = ua.valid]
+      appliedOwn == \A k \in (pre.applied + 1)..post.applied :
+                      HasIndex(post, postD, k) /\ (EntryAt(post, postD, k).term = post.term \/ EntryAt(post, postD, k).psz = 0)
       uncAcc1 ==
-        IF ~up \/ post.role # "L" THEN [h.uncAcc EXCEPT ![i] = [bytes |-> 0, lastAcc |-> 0, applied |-> 0, valid |-> FALSE, prevBytes |-> 0, prevValid |-> FALSE]]
-        ELSE IF becameLeader THEN [h.uncAcc EXCEPT ![i] = [bytes |-> 0, lastAcc |-> 0, applied |-> post.applied, valid |-> TRUE, prevBytes |-> 0, prevValid |-> FALSE]]
-        ELSE IF post.applied # ua.applied THEN [h.uncAcc EXCEPT ![i] = [ua0 EXCEPT !.valid = FALSE]]
-        ELSE IF ua.valid /\ accepted > 0 THEN [h.uncAcc EXCEPT ![i] = [ua0 EXCEPT !.bytes = @ + accepted, !.lastAcc = accepted]]
-        ELSE [h.uncAcc EXCEPT ![i] = ua0]
+        IF ~up \/ post.role # "L" THEN [h.uncAcc EXCEPT ![i] = [ua EXCEPT !.valid = FALSE]]
+        ELSE IF becameLeader THEN [h.uncAcc EXCEPT ![i] = [ua EXCEPT !.valid = TRUE]]
+        ELSE IF pre.up /\ post.applied > pre.applied /\ ~appliedOwn THEN [h.uncAcc EXCEPT ![i] = [ua EXCEPT !.valid = FALSE]]
+        ELSE h.uncAcc
       maxLC1 == IF up /\ post.role = "L" /\ post.commit > h.maxLeaderCommit THEN post.commit ELSE h.maxLeaderCommit
       cfgIdx1 == CASE a.name \in {"Restart", "Boot"} /\ up -> [h.cfgIdx EXCEPT ![i] = IF post.applied >= postD.snap.index THEN postD.snap.index ELSE 0]
                    [] a.name \in {"Apply", "ApplyThread"} /\ Len(a.ents) > 0 /\ up -> [h.cfgIdx EXCEPT ![i] = Last(a.ents).index]
